@@ -31,10 +31,11 @@ import itertools
 PROPERTY = "C12"
 FAMILY = "c12"
 LEAN_MODULE = "ElfioVerif.Props.C12"
-THEOREMS = ["ElfioVerif.C12.dyn_roundtrip", "ElfioVerif.C12.fresh_good", "ElfioVerif.C12.added_tracked",
-            "ElfioVerif.C12.get_added", "ElfioVerif.C12.num_def", "ElfioVerif.C12.num_le_held",
-            "ElfioVerif.C12.dyn_bytes", "ElfioVerif.C12.get_total", "ElfioVerif.C12.nodata_fabricates",
-            "ElfioVerif.C12.entry_roundtrip", "ElfioVerif.C12.create_good", "ElfioVerif.C12.reload_good"]
+THEOREMS = ["ElfioVerif.C12." + t for t in (
+    "dyn_roundtrip", "step_ok", "fresh_good", "create_good", "reload_good", "added_tracked", "get_added",
+    "normEntry_id", "num_def", "num_le_held", "dyn_bytes", "get_total", "nodata_fabricates",
+    "entry_roundtrip", "decode_encodeDyn", "mkRec32_eq", "mkRec64_eq", "kind_zero", "string_tag_iff",
+    "strAt_strAdd", "strAt_strAdd_mono")]
 SITES = ["dyn_", "dyn32_", "dyn64_", "dynstr_"]
 RULE = ("sequences of 0-30 added entries (standard d_val / d_ptr tags, d_un-ignored tags, string-valued tags "
         "added as tag+string and as tag+offset (valid and invalid offsets), OS- and processor-specific tags, "
